@@ -115,7 +115,8 @@ class BMCI:
         # Eigenvalues of s
         self.y_mean  = np.mean(y, axis = 0)
 
-        w, v = np.linalg.eig(self.s_o)
+        # (s_o is symmetric: eigh returns real eigenvalues and eigenvectors)
+        w, v = np.linalg.eigh(self.s_o)
 
         inds = np.argsort(w)
         self.pc1_e = 1.0 / w[inds[0]]
